@@ -7,6 +7,8 @@ mod fam_validate;
 mod fam_scope;
 mod fam_glob;
 mod fam_hist;
+mod fam_api;
+mod fam_wire;
 mod fam_conc;
 mod util;
 
@@ -19,6 +21,7 @@ fn run_case(fam: i64, case: &[Vec<Tok>]) -> Vec<Vec<Tok>> {
         2 => case.iter().map(|l| fam_validate::run_line(l)).collect(),
         14 => fam_glob::run_case(case),
         1 => fam_hist::run_case(case),
+        15 => case.iter().map(|l| fam_wire::run_line(l)).collect(),
         11 => case.iter().map(|l| fam_conc::run_trace_line(l)).collect(),
         12 => case.iter().map(|l| fam_conc::run_sched_line(l)).collect(),
         5 => case.iter().map(|l| fam_scope::run_line(l)).collect(),
